@@ -233,6 +233,10 @@ let () =
             | BRet (rc, d) ->
               Printf.printf "build %s %d\n" (string_of_z rc) (List.length d);
               List.iter print_entry d;
+              (match diff_build N0 b a with
+               | BOverread -> raise (Case_crashed "revbuild-overread")
+               | BRet (rr, rd) -> Printf.printf "revbuild %s %d tc=%s\n" (string_of_z rr) (List.length rd)
+                                    (b01 (List.exists (function ETooComplex _ -> true | _ -> false) rd)));
               Printf.printf "hypd slots_distinct=%s nonnull=%s dupname_hit=%s\n" (b01 (slots_distinct a.t_nbl d)) (b01 (List.for_all entry_nonnull d)) (b01 (dupname_hit a d));
               if rc = Z0 then begin
                 match apply N0 d a with
